@@ -9,13 +9,15 @@ out=/verif/seeded/$id
 mkdir -p $out
 cp $wt/_seed/* $out/ 2>/dev/null
 # demo files placed by the agent (untracked, outside _seed)
-demos=$(git -C $wt status --porcelain | grep '^??' | awk '{print $2}' | grep -v '^_seed' | grep -v '_PROMPT.md')
+demos=$(git -C $wt status --porcelain | grep '^??' | awk '{print $2}' | grep -v '^_seed' | grep -v '_PROMPT.md' | grep -v '_PROPERTY.json')
 git -C /repo worktree remove --force $hv 2>/dev/null; rm -rf $hv
 git -C /repo worktree add -q --detach $hv HEAD || exit 1
 res="applies=no"
 if git -C $hv apply --check $out/patch.diff 2>/dev/null; then
   res="applies=yes"
   for d in $demos; do mkdir -p $hv/$(dirname $d); cp $wt/$d $hv/$d; done
+  # keep the demonstration next to the patch (path inside the repository encoded in the file name)
+  for d in $demos; do case $d in *_test.go) cp $wt/$d $out/$(echo $d | tr '/' '+');; esac; done
   # demo without patch
   ( cd $hv && go test -vet=off -count=1 -run 'TestSeedDemo' ./... > $out/demo_without.log 2>&1 ); wo=$?
   git -C $hv apply $out/patch.diff
